@@ -112,6 +112,26 @@ def check(ctx: Ctx) -> list[RuleResult]:
         r2.ok({"latch": "CANT_EXPIRE -> False, already expired -> True, before any recomputation"})
     else:
         r2.fail(f"{ex.short}:latch", ex.loc(), "_expired no longer starts with the latch (CANT_EXPIRE -> False; fraction >= HAS_EXPIRED -> True): expiry could un-happen")
+    # a "not expired" verdict is never served from the memo: in the decision table of _expired every row that answers False
+    # without re-computing the fraction (no call of the age/fraction helper) is the "cannot expire" case
+    from ..predeval import PredEval as _PE, Unsupported as _Un
+
+    r2.instances += 1
+    r2.nontrivial += 1
+    try:
+        tabx = _PE(ctx, ex).table()
+    except _Un as err:
+        raise AnalysisError(f"Message._expired is not a decision procedure the evaluator understands: {err}") from err
+    CANT = "self._fraction_expired == self.CANT_EXPIRE"
+    LIFE = "self._pkt._lifespan"
+    if CANT not in tabx.atoms or LIFE not in tabx.subjects:
+        raise AnalysisError(f"Message._expired: expected tests not found (atoms={tabx.atoms}, subjects={list(tabx.subjects)})")
+    stale = [a for a, r in tabx.rows if r is False and not a["__effects__"] and not (a.get(LIFE) is False or (a.get(CANT) is True and a.get("self._fraction_expired") is not None))]
+    if stale:
+        a0 = stale[0]
+        r2.fail(f"{ex.short}:false-from-memo", ex.loc(), "_expired can answer False from the memoised fraction without re-computing it from the clock: a message evaluated once while young is never seen to expire: " + tabx.describe({k: v for k, v in a0.items() if k != "__effects__"})[:260])
+    else:
+        r2.ok({"false_verdicts": "always recomputed from the clock, except 'cannot expire'", "rows": len(tabx.rows)})
     out.append(r2)
 
     # ---- R3 ---------------------------------------------------------------------------
